@@ -951,6 +951,54 @@ def search(res, rng=None):
                              "in place of the original" % kind})
 
 
+def file_vs_simple_caps(res):
+    """always run: a file-backed process tensor that computes its OWN caps gives what an in-memory one
+    with the same stored tensors gives -- rank-3 and rank-4 tensors, transforms absent / square
+    non-unitary / non-square (forced kinds), caps and dynamics"""
+    import random as _r
+    import oqupy
+    from . import run_C03
+    rng = _r.Random(1603)
+    d, n = 2, 3
+    for kind in ("rank3-t", "rank3-nonsquare", "rank4-t", "rank4-nonsquare", "rank3", "mixed-t"):
+        spec = run_C03.rand_env_spec(rng, d, n, kind)
+        a = run_C03.build_pt(spec, d, n, "simple")
+        b = None
+        try:
+            try:
+                b = run_C03.build_pt(spec, d, n, "file")
+            except Exception as e:      # noqa: BLE001
+                res.fail("file-vs-memory caps: FileProcessTensor.compute_caps raises (%s tensors)" % kind,
+                         {"oracle": "file-vs-simple-caps", "kind": kind, "exception": "%s: %s" % (type(e).__name__, e)})
+                continue
+            worst = 0.0
+            for k in range(n + 1):
+                ca, cb = a.get_cap_tensor(k), b.get_cap_tensor(k)
+                if (ca is None) != (cb is None):
+                    worst = float("inf")
+                elif ca is not None:
+                    worst = max(worst, float(np.abs(np.asarray(ca) - np.asarray(cb)).max()))
+            sysm = oqupy.System(np.array([[0.3, 0.2 - 0.1j], [0.2 + 0.1j, -0.3]]))
+            rho0 = np.array([[0.6, 0.1 + 0.25j], [0.1 - 0.25j, 0.4]])
+            xa = run_C03.run_real(sysm, rho0, [a], n)
+            xb = run_C03.run_real(sysm, rho0, [b], n)
+            derr = max(float(np.abs(u - v).max()) for u, v in zip(xa, xb))
+            scale = max(1.0, max(float(np.abs(u).max()) for u in xa))
+            res.case("file-vs-simple-caps:%s" % kind, True, {"caps": worst, "dynamics": derr})
+            res.count("file-vs-simple caps:%s" % kind)
+            if worst > 1e-10 * scale or derr > 1e-10 * scale:
+                res.fail("file-vs-memory caps: compute_caps() of a FileProcessTensor (%s tensors) differs from "
+                         "SimpleProcessTensor" % kind,
+                         {"oracle": "file-vs-simple-caps", "kind": kind, "max_cap_difference": worst,
+                          "max_state_difference": derr,
+                          "how": "the same stored tensors and transforms in both classes; compute_caps(); "
+                                 "get_cap_tensor(k) and compute_dynamics"})
+        finally:
+            run_C03.drop_pt(a)
+            if b is not None:
+                run_C03.drop_pt(b)
+
+
 def replay_outcome(res):
     """--replay: re-run one recorded failing input against the tree under test (no evidence
     is written)"""
@@ -1019,4 +1067,5 @@ def run(tier, seed, replay):
     except Exception:        # the real code (or the harness on it) raised where it should not
         import traceback
         res.oblige("correspondence run", False, traceback.format_exc()[-1500:])
+    file_vs_simple_caps(res)
     return fw.finish(res, search)
